@@ -8,28 +8,134 @@ namespace Bycycle
 
 theorem epochDf_eq_spec {P} (rows : List (FRow P)) (sigLen L : Nat) :
     epochDf rows sigLen L = epochSpec rows sigLen L := by
-  sorry
+  unfold epochDf epochSpec nEpochs
+  apply List.map_congr_left
+  intro e _
+  dsimp only
+  congr 1
+  apply List.filter_congr
+  intro r _
+  simp only [Slots.epochUpperCmp, Slots.epochLowerCmp, Cmp.evalInt]
+  rw [Bool.and_comm]
 
 theorem epochSpec_length {P} (rows : List (FRow P)) (sigLen L : Nat) :
     (epochSpec rows sigLen L).length = nEpochs sigLen L := by
-  sorry
+  simp [epochSpec]
 
 theorem shift_unshift (r : SampleRow) (k : Int) : (r.shift k).shift (-k) = r := by
-  sorry
+  cases r
+  simp only [SampleRow.shift, SampleRow.mk.injEq]
+  omega
+
+theorem FRow.shift_unshift {P} (r : FRow P) (k : Int) : (r.shift k).shift (-k) = r := by
+  cases r
+  simp [FRow.shift, Bycycle.shift_unshift]
+
+/-- the epoch of a positive sample index `m` is `(m - 1) / L`. -/
+theorem epoch_iff (m L e : Nat) (hL : 0 < L) (hm : 0 < m) :
+    (e * L < m ∧ m ≤ (e + 1) * L) ↔ (m - 1) / L = e := by
+  rw [Nat.div_eq_iff hL, Nat.succ_mul]
+  omega
 
 /-- a row whose closing side extremum lies in `(0, sigLen]` belongs to exactly one epoch:
 number `(next - 1) / L`. -/
 theorem epoch_unique (next : Int) (sigLen L : Nat) (hL : 0 < L) (h0 : 0 < next) (h1 : next ≤ sigLen) :
     ∃ e, e < nEpochs sigLen L ∧ (((e * L : Nat) : Int) < next ∧ next ≤ (((e + 1) * L : Nat) : Int)) ∧
       ∀ e', (((e' * L : Nat) : Int) < next ∧ next ≤ (((e' + 1) * L : Nat) : Int)) → e' = e := by
-  sorry
+  obtain ⟨m, rfl⟩ : ∃ m : Nat, next = m := ⟨next.toNat, by omega⟩
+  have hm : 0 < m := by omega
+  have hms : m ≤ sigLen := by omega
+  refine ⟨(m - 1) / L, ?_, ?_, ?_⟩
+  · unfold nEpochs
+    have h2 : (m - 1) / L ≤ (sigLen - 1) / L := Nat.div_le_div_right (by omega)
+    have h3 : sigLen + L - 1 = (sigLen - 1) + L := by omega
+    rw [h3, Nat.add_div_right _ hL]
+    omega
+  · have := (epoch_iff m L ((m - 1) / L) hL hm).2 rfl
+    exact ⟨by exact_mod_cast this.1, by exact_mod_cast this.2⟩
+  · intro e' h
+    have := (epoch_iff m L e' hL hm).1 ⟨by exact_mod_cast h.1, by exact_mod_cast h.2⟩
+    exact this.symm
 
 /-- membership: a (shifted) row is in epoch `e` iff the original row is in the table and its closing side
 extremum lies in `(e·L, (e+1)·L]`. -/
 theorem mem_epochSpec {P} (rows : List (FRow P)) (sigLen L e : Nat) (he : e < nEpochs sigLen L) (t : FRow P) :
     t ∈ (epochSpec rows sigLen L).getD e [] ↔
       ∃ r ∈ rows, t = r.shift ((e * L : Nat) : Int) ∧ ((e * L : Nat) : Int) < r.s.nextTrough ∧ r.s.nextTrough ≤ (((e + 1) * L : Nat) : Int) := by
-  sorry
+  unfold epochSpec
+  rw [List.getD_eq_getElem?_getD, List.getElem?_map, List.getElem?_range he]
+  simp only [Option.map_some, Option.getD_some, List.mem_map, List.mem_filter, Bool.and_eq_true,
+    decide_eq_true_eq]
+  constructor
+  · rintro ⟨r, ⟨hr, h1, h2⟩, rfl⟩
+    exact ⟨r, hr, rfl, h1, h2⟩
+  · rintro ⟨r, hr, rfl, h1, h2⟩
+    exact ⟨r, ⟨hr, h1, h2⟩, rfl⟩
+
+/-- sorted list, values `≤ n`: the `< n` part followed by the `= n` part is the list. -/
+theorem filter_lt_append_filter_eq {α} (f : α → Nat) (n : Nat) (l : List α)
+    (hs : l.Pairwise fun a b => f a ≤ f b) (hb : ∀ a ∈ l, f a ≤ n) :
+    l.filter (fun a => decide (f a < n)) ++ l.filter (fun a => f a == n) = l := by
+  induction l with
+  | nil => rfl
+  | cons a l ih =>
+    rw [List.pairwise_cons] at hs
+    have hb' : ∀ b ∈ l, f b ≤ n := fun b hb' => hb b (List.mem_cons_of_mem _ hb')
+    by_cases ha : f a < n
+    · rw [List.filter_cons_of_pos (by simpa using ha), List.filter_cons_of_neg (by simp; omega)]
+      rw [List.cons_append, ih hs.2 hb']
+    · have han : f a = n := by have := hb a List.mem_cons_self; omega
+      have h1 : (a :: l).filter (fun a => decide (f a < n)) = [] := by
+        rw [List.filter_eq_nil_iff]
+        intro b hb1
+        rcases List.mem_cons.1 hb1 with rfl | hb1
+        · simpa using ha
+        · have := hs.1 b hb1; simp; omega
+      have h2 : (a :: l).filter (fun a => f a == n) = a :: l := by
+        rw [List.filter_eq_self]
+        intro b hb1
+        have : f b ≤ n := hb b hb1
+        rcases List.mem_cons.1 hb1 with rfl | hb1
+        · simpa using han
+        · have := hs.1 b hb1; simp; omega
+      rw [h1, h2, List.nil_append]
+
+theorem flatMap_filter_eq_self {α} (f : α → Nat) (n : Nat) (l : List α)
+    (hs : l.Pairwise fun a b => f a ≤ f b) (hb : ∀ a ∈ l, f a < n) :
+    (List.range n).flatMap (fun e => l.filter (fun a => f a == e)) = l := by
+  induction n generalizing l with
+  | zero =>
+    cases l with
+    | nil => rfl
+    | cons a l => exact absurd (hb a List.mem_cons_self) (Nat.not_lt_zero _)
+  | succ n ih =>
+    rw [List.range_succ, List.flatMap_append]
+    have h := ih (l.filter (fun a => decide (f a < n))) (hs.filter _) (by
+      intro a ha; simpa using (List.mem_filter.1 ha).2)
+    have h2 : (List.range n).flatMap (fun e => l.filter (fun a => f a == e)) =
+        (List.range n).flatMap (fun e => (l.filter (fun a => decide (f a < n))).filter (fun a => f a == e)) := by
+      rw [List.flatMap_def, List.flatMap_def]
+      congr 1
+      apply List.map_congr_left
+      intro e he
+      rw [List.filter_filter]
+      apply List.filter_congr
+      intro a _
+      have : e < n := List.mem_range.1 he
+      by_cases hae : f a = e
+      · simp [hae, this]
+      · simp [hae]
+    rw [h2, h]
+    simp only [List.flatMap_cons, List.flatMap_nil, List.append_nil]
+    exact filter_lt_append_filter_eq f n l hs (fun a ha => Nat.le_of_lt_succ (hb a ha))
+
+/-- `zipIdx` of a list built from `range`. -/
+theorem zipIdx_map_range {β} (h : Nat → β) (n : Nat) :
+    ((List.range n).map h).zipIdx = (List.range n).map (fun e => (h e, e)) := by
+  apply List.ext_getElem
+  · simp
+  · intro i h1 h2
+    simp
 
 /-- with closing extrema in temporal order, un-shifting and concatenating the epochs gives back the
 flattened table: every cycle exactly once, original order, nothing altered. -/
@@ -37,42 +143,104 @@ theorem epoch_partition {P} (rows : List (FRow P)) (sigLen L : Nat) (hL : 0 < L)
     (hin : ∀ r ∈ rows, 0 < r.s.nextTrough ∧ r.s.nextTrough ≤ (sigLen : Int))
     (hsorted : rows.Pairwise fun a b => a.s.nextTrough ≤ b.s.nextTrough) :
     ((epochSpec rows sigLen L).zipIdx.flatMap fun p => p.1.map fun r => r.shift (-((p.2 * L : Nat) : Int))) = rows := by
-  sorry
+  unfold epochSpec
+  rw [zipIdx_map_range, List.flatMap_map]
+  simp only [List.map_map]
+  have hid : ∀ e : Nat, ((fun r : FRow P => r.shift (-((e * L : Nat) : Int))) ∘ fun r => r.shift ((e * L : Nat) : Int)) = id := by
+    intro e; funext r; exact FRow.shift_unshift r _
+  simp only [hid, List.map_id]
+  let f : FRow P → Nat := fun r => (r.s.nextTrough.toNat - 1) / L
+  have hkey : ∀ e, rows.filter (fun r => decide (((e * L : Nat) : Int) < r.s.nextTrough) && decide (r.s.nextTrough ≤ (((e + 1) * L : Nat) : Int)))
+      = rows.filter (fun r => f r == e) := by
+    intro e
+    apply List.filter_congr
+    intro r hr
+    obtain ⟨h0, h1⟩ := hin r hr
+    obtain ⟨m, hm⟩ : ∃ m : Nat, r.s.nextTrough = m := ⟨r.s.nextTrough.toNat, by omega⟩
+    have hm0 : 0 < m := by omega
+    have := epoch_iff m L e hL hm0
+    simp only [f, hm, Int.toNat_natCast]
+    rw [Bool.eq_iff_iff]
+    simp only [Bool.and_eq_true, decide_eq_true_eq, beq_iff_eq]
+    rw [← this]
+    constructor
+    · intro h; exact ⟨by exact_mod_cast h.1, by exact_mod_cast h.2⟩
+    · intro h; exact ⟨by exact_mod_cast h.1, by exact_mod_cast h.2⟩
+  simp only [hkey]
+  apply flatMap_filter_eq_self
+  · refine hsorted.imp ?_
+    intro a b hab
+    exact Nat.div_le_div_right (by omega)
+  · intro r hr
+    obtain ⟨h0, h1⟩ := hin r hr
+    obtain ⟨e, he, hin', -⟩ := epoch_unique r.s.nextTrough sigLen L hL h0 h1
+    obtain ⟨m, hm⟩ : ∃ m : Nat, r.s.nextTrough = m := ⟨r.s.nextTrough.toNat, by omega⟩
+    have hm0 : 0 < m := by omega
+    rw [hm] at hin'
+    have := (epoch_iff m L e hL hm0).1 ⟨by exact_mod_cast hin'.1, by exact_mod_cast hin'.2⟩
+    simp only [f, hm, Int.toNat_natCast, this]
+    exact he
 
 /-- one option set: the epochs carry the labels of the flattened analysis (no re-labelling). -/
 theorem featuresFlat_single {P O} (analyseFlat : O → List (FRow P)) (relabel : O → List (FRow P) → List (FRow P))
     (ks : List O) (dflt : O) (sigLen L : Nat) (h : ks.length ≤ 1) :
     featuresFlat analyseFlat relabel ks dflt sigLen L = epochSpec (analyseFlat (ks.headD dflt)) sigLen L := by
-  sorry
+  unfold featuresFlat
+  have : Slots.relabelCmp.evalInt ks.length Slots.relabelLen = false := by
+    simp only [Slots.relabelCmp, Slots.relabelLen, Cmp.evalInt]
+    simp; omega
+  simp only [this, epochDf_eq_spec]
+  simp
 
 /-- a per-epoch list: epoch `e` is re-labelled with option set `e`. -/
 theorem featuresFlat_list {P O} (analyseFlat : O → List (FRow P)) (relabel : O → List (FRow P) → List (FRow P))
     (ks : List O) (dflt : O) (sigLen L : Nat) (h : 1 < ks.length) (e : Nat) (he : e < nEpochs sigLen L) (o : O) (ho : ks[e]? = some o) :
     (featuresFlat analyseFlat relabel ks dflt sigLen L)[e]? =
       some (relabel o ((epochSpec (analyseFlat (ks.headD dflt)) sigLen L).getD e [])) := by
-  sorry
+  unfold featuresFlat
+  have : Slots.relabelCmp.evalInt ks.length Slots.relabelLen = true := by
+    simp only [Slots.relabelCmp, Slots.relabelLen, Cmp.evalInt]
+    simp; omega
+  simp only [this, epochDf_eq_spec, if_true]
+  have hlen : e < (epochSpec (analyseFlat (ks.headD dflt)) sigLen L).length := by
+    rw [epochSpec_length]; exact he
+  rw [List.getElem?_map, List.getElem?_zipIdx, List.getElem?_eq_getElem hlen]
+  simp only [Option.map_some, Nat.zero_add, ho, List.getD_eq_getElem?_getD, List.getElem?_eq_getElem hlen, Option.getD_some]
 
 /-! ### C18 -/
 
 theorem limitDf_eq_spec {P} (rows : List (FRow P)) (a : Rat) (b : Option Rat) (off : Int) (reset : Bool) :
     limitDf rows a b off reset = limitSpec rows a b off reset := by
-  sorry
+  unfold limitDf limitSpec
+  cases b with
+  | none =>
+    simp only [Slots.limitLoCmp, Cmp.evalRat, Bool.and_true]
+  | some st =>
+    simp only [Slots.limitLoCmp, Slots.limitHiCmp, Cmp.evalRat, List.filter_filter]
+    simp only [Bool.and_comm]
 
 /-- the kept rows are a sub-list of the table: in order, values unchanged. -/
 theorem limitSpec_sublist {P} (rows : List (FRow P)) (a : Rat) (b : Option Rat) (off : Int) :
     (limitSpec rows a b off false).Sublist rows := by
-  sorry
+  unfold limitSpec
+  exact List.filter_sublist
 
 theorem mem_limitSpec {P} (rows : List (FRow P)) (a : Rat) (b : Option Rat) (off : Int) (r : FRow P) :
     r ∈ limitSpec rows a b off false ↔
       (r ∈ rows ∧ a ≤ (r.s.lastTrough : Rat) ∧ ∀ st, b = some st → (r.s.nextTrough : Rat) ≤ st) := by
-  sorry
+  unfold limitSpec
+  cases b with
+  | none => simp [List.mem_filter]
+  | some st => simp [List.mem_filter]
 
 /-- no cycle lying entirely outside the window is kept (for an ordered row: last side < next side). -/
 theorem limitSpec_outside {P} (rows : List (FRow P)) (a st : Rat) (off : Int) (r : FRow P)
     (hr : r ∈ limitSpec rows a (some st) off false) (hord : r.s.lastTrough < r.s.nextTrough) :
     ¬ ((r.s.nextTrough : Rat) < a) ∧ ¬ (st < (r.s.lastTrough : Rat)) := by
-  sorry
+  obtain ⟨-, h1, h2⟩ := (mem_limitSpec rows a (some st) off r).1 hr
+  have h2 := h2 st rfl
+  have h3 : (r.s.lastTrough : Rat) < (r.s.nextTrough : Rat) := by exact_mod_cast hord
+  exact ⟨Rat.not_lt.2 (Rat.le_trans h1 (Rat.le_of_lt h3)), Rat.not_lt.2 (Rat.le_trans (Rat.le_of_lt h3) h2)⟩
 
 /-- reset_indices shifts all six sample columns by one common offset. -/
 theorem limitSpec_reset {P} (rows : List (FRow P)) (a : Rat) (b : Option Rat) (off : Int) :
@@ -80,15 +248,36 @@ theorem limitSpec_reset {P} (rows : List (FRow P)) (a : Rat) (b : Option Rat) (o
     ∀ r : SampleRow, (r.shift off).peak = r.peak - off ∧ (r.shift off).lastZeroxDecay = r.lastZeroxDecay - off ∧
       (r.shift off).zeroxDecay = r.zeroxDecay - off ∧ (r.shift off).zeroxRise = r.zeroxRise - off ∧
       (r.shift off).lastTrough = r.lastTrough - off ∧ (r.shift off).nextTrough = r.nextTrough - off := by
-  sorry
+  refine ⟨by simp [limitSpec], fun r => ⟨rfl, rfl, rfl, rfl, rfl, rfl⟩⟩
 
 theorem limitSignal_eq_spec (times : List Rat) (a b : Option Rat) : limitSignal times a b = limitSignalSpec times a b := by
-  sorry
+  unfold limitSignal limitSignalSpec
+  cases a with
+  | none =>
+    cases b with
+    | none =>
+      simp only [Bool.and_true]
+      exact (List.filter_eq_self.2 (fun _ _ => rfl)).symm
+    | some y => simp only [Slots.sigHiCmp, Cmp.evalRat, Bool.true_and]
+  | some x =>
+    cases b with
+    | none => simp only [Slots.sigLoCmp, Cmp.evalRat, Bool.and_true]
+    | some y =>
+      simp only [Slots.sigLoCmp, Slots.sigHiCmp, Cmp.evalRat, List.filter_filter]
+      simp only [Bool.and_comm]
 
 theorem mem_limitSignalSpec (times : List Rat) (a b : Option Rat) (i : Nat) :
     i ∈ limitSignalSpec times a b ↔
       (i < times.length ∧ (∀ x, a = some x → x ≤ times.getD i 0) ∧ (∀ y, b = some y → times.getD i 0 < y)) := by
-  sorry
+  unfold limitSignalSpec
+  cases a <;> cases b <;> simp [List.mem_filter]
+
+theorem length_filter_add_not {α} (p : α → Bool) (l : List α) :
+    (l.filter fun c => !p c).length + (l.filter p).length = l.length := by
+  induction l with
+  | nil => rfl
+  | cons a l ih =>
+    cases h : p a <;> simp [h] <;> omega
 
 /-- split / drop partition the columns by the `sample_` prefix. -/
 theorem splitSamples_partition (cols : List String) :
@@ -96,18 +285,53 @@ theorem splitSamples_partition (cols : List String) :
     (∀ c, c ∈ (splitSamples cols).1 ↔ (c ∈ cols ∧ c.startsWith "sample_" = false)) ∧
     (∀ c, c ∈ (splitSamples cols).2 ↔ (c ∈ cols ∧ c.startsWith "sample_" = true)) ∧
     (splitSamples cols).1.length + (splitSamples cols).2.length = cols.length := by
-  sorry
+  refine ⟨rfl, ?_, ?_, ?_⟩
+  · intro c; simp only [splitSamples, List.mem_filter, Bool.not_eq_true']
+  · intro c; simp only [splitSamples, List.mem_filter]
+  · exact length_filter_add_not (fun c => c.startsWith "sample_") cols
+
+theorem flatten_zip_fst {α L} (tables : List (List α)) (labels : List L) (h : labels.length = tables.length) :
+    (((tables.zip labels).flatMap fun (t, l) => t.map fun r => (r, l)).map (·.1)) = tables.flatten := by
+  induction tables generalizing labels with
+  | nil => simp
+  | cons t ts ih =>
+    cases labels with
+    | nil => simp at h
+    | cons l ls =>
+      simp only [List.length_cons, Nat.add_right_cancel_iff] at h
+      simp only [List.zip_cons_cons, List.flatMap_cons, List.map_append, List.map_map, List.flatten_cons]
+      rw [ih ls h]
+      congr 1
+      simp [Function.comp_def]
 
 /-- flatten_dfs: rows in table order, each carrying the label of its table; label count must match. -/
 theorem flattenDfs_spec {α L} (tables : List (List α)) (labels : List L) :
     (labels.length ≠ tables.length → flattenDfs tables labels = .error .valueError) ∧
     (labels.length = tables.length → ∃ out, flattenDfs tables labels = .ok out ∧ out.map (·.1) = tables.flatten ∧
       out.length = (tables.map List.length).sum) := by
-  sorry
+  constructor
+  · intro h; simp [flattenDfs, h]
+  · intro h
+    refine ⟨_, by simp only [flattenDfs, h, ne_eq, not_true_eq_false, if_false], flatten_zip_fst tables labels h, ?_⟩
+    have := congrArg List.length (flatten_zip_fst tables labels h)
+    rw [List.length_map, List.length_flatten] at this
+    exact this
 
 theorem flattenDfs_labels {α L} (tables : List (List α)) (labels : List L) (out : List (α × L))
     (h : flattenDfs tables labels = .ok out) (p : α × L) (hp : p ∈ out) :
     ∃ (i : Nat) (t : List α) (l : L), tables[i]? = some t ∧ labels[i]? = some l ∧ p.1 ∈ t ∧ p.2 = l := by
-  sorry
+  unfold flattenDfs at h
+  split at h
+  · cases h
+  · cases h
+    rw [List.mem_flatMap] at hp
+    obtain ⟨⟨t, l⟩, htl, hp⟩ := hp
+    obtain ⟨i, hi, hget⟩ := List.getElem_of_mem htl
+    rw [List.getElem_zip] at hget
+    simp only [List.length_zip, Nat.lt_min] at hi
+    simp only [Prod.mk.injEq] at hget
+    simp only [List.mem_map] at hp
+    obtain ⟨r, hr, rfl⟩ := hp
+    exact ⟨i, t, l, by rw [List.getElem?_eq_getElem hi.1, hget.1], by rw [List.getElem?_eq_getElem hi.2, hget.2], hr, rfl⟩
 
 end Bycycle
